@@ -395,7 +395,8 @@ def rule_c(ctx, rule='C03.c'):
             raise AnalysisError('%s: no merging path for head %s' % (rule, T.name))
         rep.add(rule, 'FrameFragmentCache._frame_fragment_builder / complete flag of %s' % T.name, fb, ok,
                 detail or 'the complete flag of the arriving fragment is copied on all %d merging paths' % seen)
-    # append(): follows -> stored, not returned; last -> merged, entry dropped, frame returned
+    # append(): follows -> builder result stored under the frame's stream id, nothing returned;
+    #           last -> when a part is cached: builder result returned, entry dropped; otherwise the frame itself
     ap = cache.lookup('append')
     fr = ('param', ap.qualname, 'frame')
     for follows in (True, False):
@@ -403,45 +404,117 @@ def rule_c(ctx, rule='C03.c'):
                                    initial_heap={(fr, 'flags_follows'): const(follows)},
                                    no_inline={'_frame_fragment_builder'}) if p.outcome == 'return']
         ok = bool(ps)
+        why = ''
         for p in ps:
-            stored = any(e.kind == 'store' and e.data['target'][0] == 'item' for e in p.events)
-            popped = any(e.kind == 'call' and e.data.get('name') in ('pop', '__delitem__') for e in p.events)
+            built = [e for e in p.events if e.kind == 'call' and e.data.get('name') == '_frame_fragment_builder']
+            for bcall in built:
+                if [strip_epoch(a.term) for a in bcall.data['args']] != [fr]:
+                    ok, why = False, 'the reassembly step is not given the arriving fragment'
+            stores = [e for e in p.events if e.kind == 'store' and e.data['target'][0] == 'item']
+            popped = [e for e in p.events if e.kind == 'call' and e.data.get('name') in ('pop', '__delitem__')]
             incache = [c for c in p.events if c.kind == 'cond' and strip_epoch(c.data['key'])[0] == 'in']
             rv = p.value
             if follows:
-                if not stored or not (rv.is_const() and rv.const is None):
-                    ok = False
+                if not (rv.is_const() and rv.const is None):
+                    ok, why = False, 'a non-final fragment is dispatched'
+                good = len(built) == 1 and len(stores) == 1 and \
+                    strip_epoch(stores[0].data['value'].term) == strip_epoch(built[0].data['value'].term) and \
+                    strip_epoch(stores[0].data['target'][2]) == ('attr', fr, 'stream_id')
+                if not good:
+                    ok, why = False, 'a non-final fragment is not merged into the part cached under its stream id'
             else:
                 if rv.is_const() and rv.const is None:
-                    ok = False
-                if incache and incache[0].data['value'] is True and not popped:
-                    ok = False
+                    ok, why = False, 'a final fragment is not dispatched'
+                cached = incache and incache[0].data['value'] is True
+                if cached:
+                    if len(built) != 1 or strip_epoch(rv.term) != strip_epoch(built[0].data['value'].term):
+                        ok, why = False, ('the final fragment is dispatched alone: the part already cached for the '
+                                          'stream is not merged into what is returned')
+                    if not popped:
+                        ok, why = False, 'a final fragment leaves its cache entry behind'
+                elif incache:
+                    if strip_epoch(rv.term) != fr:
+                        ok, why = False, 'an unfragmented frame is not dispatched as it arrived'
+                else:
+                    ok, why = False, 'the final fragment is handled without looking for a cached part'
         rep.add(rule, 'FrameFragmentCache.append / %s fragment' % ('non-final' if follows else 'final'), ap, ok,
-                ('stored under the stream id, nothing dispatched' if follows else
-                 'merged with the cached part, cache entry dropped, frame dispatched') if ok else
-                ('a non-final fragment is dispatched or not cached' if follows else
-                 'a final fragment leaves its cache entry behind or is not dispatched'))
-    # merge appends in arrival order, field to field
-    mg = cache.lookup('_merge_frame_content_inplace')
-    if mg is None:
-        raise AnalysisError('%s: _merge_frame_content_inplace vanished' % rule)
-    cur = ('param', mg.qualname, mg.params()[1])
-    nxt = ('param', mg.qualname, mg.params()[2])
-    ok = True
-    n = 0
-    for p in ctx.paths(mg, cache):
-        for e in p.events:
-            if e.kind == 'store' and e.data['target'][0] == 'attr' and e.data.get('aug') == 'Add':
-                n += 1
-                fld = e.data['target'][2]
-                t = strip_epoch(e.data['value'].term)
-                good = t[0] == 'op' and t[1] == 'Add' and strip_epoch(t[3]) == ('attr', nxt, fld) and \
-                    strip_epoch(e.data['target'][1]) == cur
+                ('reassembly result stored under the stream id, nothing dispatched' if follows else
+                 'merged with the cached part, cache entry dropped, merged frame dispatched') if ok else why)
+    # builder with a cached head: returns the head, content of the arriving fragment appended field to field
+    for fld in ('data', 'metadata'):
+        ok = True
+        why = ''
+        n_merge = 0
+        ps = ctx.paths(fb, cache, args={'next_fragment': AVal(nf, [payload], exact=True)}, inline_depth=3)
+        for p in ps:
+            if p.outcome != 'return':
+                continue
+            cur = None
+            for e in p.events:
+                if e.kind == 'store' and e.data['target'][0] == 'local' and \
+                        e.data['value'].term[0] in ('call', 'pure') and 'get' in str(e.data['value'].term[1]):
+                    cur = strip_epoch(e.data['value'].term)
+            if cur is None:
+                continue
+            none = [c for c in p.events if c.kind == 'cond' and c.data['key'][0] == 'isnone' and
+                    strip_epoch(c.data['key'][1]) == cur]
+            if not none or none[0].data['value'] is True:
+                continue  # first fragment: nothing to merge
+            same = [c for c in p.events if c.kind == 'cond' and c.data['key'][0] == 'is' and
+                    cur in [strip_epoch(x) for x in c.data['key'][1:3] if isinstance(x, tuple)]]
+            if same and same[-1].data['value'] is True:
+                continue  # infeasible: the cached head is not the arriving object
+            if strip_epoch(p.value.term) != cur:
+                ok, why = False, 'with a part cached, the reassembly step does not return the cached frame'
+                continue
+            nstate = _content_state(p, ('attr', nf, fld))
+            cstate = _content_state(p, ('attr', cur, fld))
+            final = None
+            for e in p.events:
+                if e.kind == 'store' and e.data['target'][0] == 'attr' and \
+                        strip_epoch(e.data['target'][1]) == cur and e.data['target'][2] == fld:
+                    final = strip_epoch(e.data['value'].term)
+            if nstate in ('nonempty', 'unknown'):
+                n_merge += 1
+                good = final is not None and final[0] == 'op' and final[1] == 'Add' and \
+                    strip_epoch(final[3]) == ('attr', nf, fld)
+                if good:
+                    left = strip_epoch(final[2])
+                    if left == ('attr', cur, fld):
+                        good = cstate not in ('none',)
+                    elif left[0] == 'const' and left[1] in (b'', bytearray()):
+                        good = cstate in ('none', 'empty')
+                    else:
+                        good = False
                 if not good:
-                    ok = False
-    rep.add(rule, 'FrameFragmentCache._merge_frame_content_inplace / append same field in arrival order', mg,
-            ok and n >= 2, 'data += next.data and metadata += next.metadata' if ok and n >= 2 else
-            'the merge does not append each field of the arriving fragment to the same field of the cached frame')
+                    ok, why = False, ('non-empty %s of the arriving fragment is not appended to the %s of the cached '
+                                      'frame (result: %s)' % (fld, fld, fmt_term(final) if final else 'unchanged'))
+            else:
+                if final is not None and not (final[0] == 'const' and cstate in ('none', 'empty')):
+                    ok, why = False, 'the %s of the cached frame is overwritten by a fragment without %s' % (fld, fld)
+        rep.add(rule, 'FrameFragmentCache._frame_fragment_builder / %s appended in arrival order' % fld, fb,
+                ok and n_merge > 0, why or 'cached.%s + next.%s on all %d merging paths with non-empty %s' % (
+                    fld, fld, n_merge, fld))
+
+
+def _content_state(p, term):
+    """'none' | 'empty' | 'nonempty' | 'unknown' for a bytes-or-None value, from the tests taken along the path."""
+    st = 'unknown'
+    for e in p.events:
+        if e.kind != 'cond':
+            continue
+        k = e.data['key']
+        if k[0] == 'isnone' and strip_epoch(k[1]) == term:
+            st = 'none' if e.data['value'] is True else (st if st in ('empty', 'nonempty') else 'notnone')
+        elif k[0] in ('eq', 'ne', 'gt', 'lt', 'truth'):
+            flat = repr(strip_epoch(k))
+            if "'len'" in flat and repr(term) in flat and k[0] == 'eq' and ('const', 0) in [strip_epoch(x) for x in
+                                                                                              k[1:3] if
+                                                                                              isinstance(x, tuple)]:
+                st = 'empty' if e.data['value'] is True else 'nonempty'
+            elif k[0] == 'truth' and strip_epoch(k[1]) == term:
+                st = 'nonempty' if e.data['value'] is True else 'empty'
+    return 'unknown' if st == 'notnone' else st
 
 
 def rule_d(ctx):
